@@ -184,6 +184,30 @@ PROPS = {
                         "other allocations (Bind parameter slices, CopyReader chunk, pgx) are measured, not proved. Trusted: Lean "
                         "kernel; the model of pgx's encoder panic (format code outside {0,1}).",
              technique="Lean 4 proof (no-crash invariant by structural induction) + differential correspondence under fault injection in isolated child processes"),
+    "C11": P("Pw.Props.C11",
+             ["Pw.Props.C11.C11_upgrade", "Pw.Props.C11.C11_plaintext_ignored", "Pw.Props.C11.C11_refused",
+              "Pw.Props.C11.C11_reply_fails", "Pw.Props.C11.C11_equivalent", "Pw.Props.C11.C11_cancel_inside_tls",
+              "Pw.Props.C11.read_sslRequest", "Pw.Props.C11.sav_cfg", "Pw.Props.C11.sav_fields"],
+             [("tls", 2500, 150000), ("startup", 800, 40000), ("session", 600, 40000)], ["Startup", "Consts"],
+             design_ref="§7 C11",
+             level_text="PARTIAL. Lean theorems about the model of Server.serve, which keeps the raw byte stream (inp) and the "
+                        "plaintext inside the TLS session (tin) apart: with certificates an SSLRequest is answered by the single byte "
+                        "'S' and the connection is then served from tin and from nothing else - for EVERY raw byte string that "
+                        "followed the SSLRequest the replies, callbacks and parameters are identical (C11_plaintext_ignored); the "
+                        "result equals that of serving the same bytes on a plaintext connection, for every configuration, handler "
+                        "and session (C11_equivalent); a CancelRequest inside TLS is refused without a reply "
+                        "(C11_cancel_inside_tls); without certificates the answer is 'N' and the bytes behind the SSLRequest are read "
+                        "as a fresh startup packet (C11_refused). Tie: the 'tls' campaign runs the real server with a real crypto/tls "
+                        "handshake (TLS 1.2 and 1.3) over an in-memory duplex connection with a wire tap: SSLRequest alone / byte by "
+                        "byte / with plaintext stuffed in the same segment / plaintext instead of a ClientHello, then a random "
+                        "session inside TLS (auth, simple and extended query, COPY, CancelRequest, second SSLRequest, truncated "
+                        "input); compared with the model on plaintext output and callback trace; the tap oracle checks that after "
+                        "the 'S' every raw byte from the server is a TLS record and that no protocol plaintext is visible.",
+             level_note="Partial: confidentiality and the TLS handshake are crypto/tls (Go standard library), trusted, not modelled; "
+                        "the theorem's 'inside TLS' is the model's separation of the two streams, tied to the code by the tap oracle "
+                        "and the differential campaign. The fate of a connection whose client stuffs plaintext (handshake failure "
+                        "or not depends on segmentation and on the reader's buffer size) is not compared.",
+             technique="Lean 4 proof (stream separation and plaintext equivalence by unfolding) + differential correspondence over real TLS with a wire tap"),
     "C05": P("Pw.Props.C05",
              ["Pw.Props.C05.runProg_facts", "Pw.Props.C05.C05_rows_delivered", "Pw.Props.C05.C05_written",
               "Pw.Props.C05.C05_after_completion_silent", "Pw.Props.C05.C05_one_complete", "Pw.Props.C05.C05_handler_no_ready",
@@ -301,7 +325,7 @@ PROPS = {
     "C12": P("Pw.Props.C12",
              ["Pw.Props.C12.C12_client_params", "Pw.Props.C12.C12_missing_terminator", "Pw.Props.C12.C12_param_values",
               "Pw.Props.C12.C12_params_present", "Pw.Props.C12.C12_cancel", "Pw.Props.C12.C12_cancel_after_N"],
-             [("startup", 3000, 200000), ("multi", 400, 20000)], ["Startup", "Consts", "Shared"],
+             [("startup", 3000, 200000), ("multi", 400, 20000), ("tls", 600, 30000)], ["Startup", "Consts", "Shared"],
              design_ref="§7 C12",
              level_text="Lean theorems: for every list of startup key/value pairs (duplicates, empty values) the handlers' client "
                         "parameters are exactly the pairs sent, last value winning, bytes after the terminator ignored; a packet without "
